@@ -14,7 +14,8 @@ def g_oz(x):
 
 
 def g_arr(a):
-    return glist(a, lambda r: glist(r, g_oz))
+    # (annotated: an all-missing array gives Coq nothing to infer the element type from)
+    return "(" + glist(a, lambda r: glist(r, g_oz)) + " : arr)"
 
 
 def g_obs(o):
@@ -225,6 +226,21 @@ def make_spec(rng, fam):
     ys = [rng.randint(-80, 80) for _ in range(n)]
     s["coords"] = [xs, ys]
     s["locs"] = ["node", "edge", "face"]
+    sub = {}
+    for loc, size in (("node", n), ("edge", len(s["edges"] or [])), ("face", len(faces or []))):
+        if size and rng.random() < 0.75:
+            r = rng.random()
+            k = rng.randint(1, size)
+            if r < 0.2:
+                idx = list(range(k))                      # a leading block: ids stay 0..k-1
+            elif r < 0.35 and size > 1:
+                idx = list(range(1, rng.randint(2, size)))  # ids 1..k: taken for one-based ids
+            elif r < 0.6:
+                idx = sorted(rng.sample(range(size), k))
+            else:
+                idx = rng.sample(range(size), k)
+            sub[loc] = idx
+    s["sub"] = sub
     return s
 
 
@@ -352,6 +368,59 @@ def same_multiset_rows(a, b):
     return True
 
 
+def same_content(a, b, same_shape):
+    """Rows agree on the first element and on the multiset of the other present values."""
+    if a is None or b is None or len(a) != len(b):
+        return False
+    for r, q in zip(a, b):
+        if not r or not q or r[0] != q[0] or (same_shape and len(r) != len(q)):
+            return False
+        if sorted(v for v in r[1:] if v is not None) != sorted(v for v in q[1:] if v is not None):
+            return False
+    return True
+
+
+def exp_sub_ids(full, idx, start):
+    """Expected normalisation of rows idx of an id-first array: cell idx[k] becomes k + start,
+    neighbours outside the selection are dropped."""
+    pos = {full[c][0]: k + start for k, c in enumerate(idx)}
+    return [[pos[full[c][0]]] + [pos[v] for v in full[c][1:] if v is not None and v in pos]
+            + [None] * sum(1 for v in full[c][1:] if v is None or v not in pos) for c in idx]
+
+
+def check_sub(fail, what, full, sub, idx, ids_first, loc):
+    """full: expected whole array (already verified); sub: observation of x[idx] and its normalisations."""
+    if sub is None:
+        return
+    if "sub_err" in sub:
+        fail("topology-subspace-raises", f"{what}[{idx}] raised {sub['sub_err']}: {sub.get('msg')}", loc=loc)
+        return
+    es = [full[c] for c in idx]
+    got = rows_of(sub["array"])
+    if not (same_content(got, es, True) if ids_first else got == es):
+        fail("topology-subspace", f"{what}[{idx}] is not rows {idx} of the array: {sub['array']}", es, sub["array"], loc)
+        return
+    n0, n0b, n1, n1b = (rows_of(sub[k]) for k in ("norm0", "norm0b", "norm1", "norm1b"))
+    if ids_first:
+        ok = same_content(n0, exp_sub_ids(full, idx, 0), True) and same_content(n1, exp_sub_ids(full, idx, 1), False)
+    else:
+        e0 = rank_rows(es)
+        ok = n0 == e0 and n1 == plus(drop_empty_columns(e0), 1)
+    if not ok:
+        fail("normalise-subspace", f"normalise() of {what}[{idx}] changed the topology: {sub['norm0']} / {sub['norm1']}",
+             es, [sub["norm0"], sub["norm1"]], loc)
+    elif n0b != n0 or n1b != n1:
+        fail("normalise-not-idempotent", f"a second normalisation changed {what}[{idx}]", [n0, n1], [n0b, n1b], loc)
+
+
+def strip_sub(x):
+    if isinstance(x, dict):
+        return {k: v for k, v in x.items() if k != "sub"}
+    if isinstance(x, list):
+        return [strip_sub(v) for v in x]
+    return x
+
+
 def rows_of(o):
     return o["rows"] if o and "rows" in o and len(o.get("shape", [])) == 2 else None
 
@@ -384,11 +453,11 @@ def build_cases(chk):
     T = chk.tier == "thorough"
     cases = [json.loads(json.dumps(c)) for c in CORPUS]
     fams = ["grid", "polygons", "random-faces", "isolated-cells", "network"]
-    per = 260 if T else 64
+    per = 900 if T else 64
     for fam in fams:
         for _ in range(per):
             cases.append(make_spec(rng, fam))
-    for _ in range(120 if T else 30):
+    for _ in range(300 if T else 30):
         s = make_spec(rng, rng.choice(fams))
         malformed(rng, s)
         cases.append(s)
@@ -397,7 +466,7 @@ def build_cases(chk):
     return cases
 
 
-def run_cases(cases, scratch, nworkers=12):
+def run_cases(cases, scratch, nworkers=16):
     shards = [cases[k::nworkers] for k in range(nworkers)]
     shards = [s for s in shards if s]
     res = lib.run_workers_parallel("drive/c15.py", [{"scratch": scratch, "cases": s} for s in shards])
@@ -471,6 +540,8 @@ def check_valid(chk, s, r, counters):
                          exp, dt["norm0"], loc)
                 elif n0b != n0 or n1b != n1:
                     fail("normalise-not-idempotent", "a second normalisation changed the point topology", n0, n0b, loc)
+                else:
+                    check_sub(fail, "point domain topology", exp, dt.get("sub"), (s.get("sub") or {}).get(loc), True, loc)
         else:
             stored, si, tr, w = files[loc]
             cells = s["faces"] if loc == "face" else s["edges"]
@@ -488,6 +559,8 @@ def check_valid(chk, s, r, counters):
                          [e0, e1], [dt["norm0"], dt["norm1"]], loc)
                 elif rows_of(dt["norm0b"]) != e0 or rows_of(dt["norm1b"]) != e1:
                     fail("normalise-not-idempotent", "a second normalisation changed the domain topology", e0, dt["norm0b"], loc)
+                else:
+                    check_sub(fail, f"{loc} domain topology", exp, dt.get("sub"), (s.get("sub") or {}).get(loc), False, loc)
             # bounds
             auxs = {a.get("name"): a for a in o.get("aux", [])}
             for name, cs in (("longitude", xs), ("latitude", ys)):
@@ -509,6 +582,8 @@ def check_valid(chk, s, r, counters):
                     c0 = ccs[0]
                     if rows_of(c0["norm0"]) != ecc or rows_of(c0["norm0b"]) != ecc or rows_of(c0["norm1"]) != plus(ecc, 1):
                         fail("normalise-cell-connectivity", f"normalise() changed a zero-based cell connectivity: {c0}", ecc, c0, "ff")
+                    else:
+                        check_sub(fail, "cell connectivity", ecc, c0.get("sub"), (s.get("sub") or {}).get(loc), True, "ff")
             elif ccs:
                 fail("cell-connectivity-unexpected", f"unexpected cell connectivity on {loc}: {ccs}", loc="ff")
         if o.get("axis_sizes") and len(o["axis_sizes"]) == 1 and got is not None and o["axis_sizes"][0] != len(got):
@@ -521,7 +596,7 @@ def check_valid(chk, s, r, counters):
                 fail("domain-missing", f"read(domain=True) gave no domain for {loc} cells", loc=loc)
             else:
                 for key in ("dt", "cc"):
-                    if d.get(key) != o.get(key):
+                    if strip_sub(d.get(key)) != strip_sub(o.get(key)):
                         fail("field-vs-domain", f"{loc}: {key} of the domain differs from that of the field", o.get(key), d.get(key), loc)
                 fa = {a.get("name"): a.get("bounds") for a in o.get("aux", [])}
                 da = {a.get("name"): a.get("bounds") for a in d.get("aux", [])}
@@ -557,6 +632,12 @@ def literals(s, r):
         if loc == "face" and "ff" in files and len(o.get("cc", [])) == 1:
             st2, si2, tr2, w2 = files["ff"]
             out.append(("conn", f"({gz(si2)}, {gbool(tr2)}, {g_arr(st2)}, {g_obs(o['cc'][0]['array'])})", "ff"))
+            c0 = o["cc"][0]
+            norm_lit(out, "norm_ids", c0["array"], c0.get("norm0"), c0.get("norm1rm"), "ff")
+            if c0.get("sub") and "array" in c0["sub"]:
+                norm_lit(out, "norm_ids", c0["sub"]["array"], c0["sub"]["norm0"], c0["sub"]["norm1"], "ff")
+        if dt.get("sub") and "array" in dt["sub"]:
+            norm_lit(out, "norm_cells", dt["sub"]["array"], dt["sub"]["norm0"], dt["sub"]["norm1"], loc)
     o = field.get("node")
     if o and "dt" in o:
         src = "edge" if "edge" in files else ("face" if "face" in files else None)
@@ -569,7 +650,17 @@ def literals(s, r):
                 #  such rows are compared as they are)
                 a = {"rows": cp if cp is not None else a["rows"], "shape": a["shape"]}
             out.append(("point", f"({gbool(src == 'face')}, {gnat(n)}, {gz(si)}, {gbool(tr)}, {g_arr(stored)}, {g_obs(a)})", "node"))
+            dt = o["dt"]
+            norm_lit(out, "norm_ids", dt["array"], dt.get("norm0"), dt.get("norm1"), "node")
+            if dt.get("sub") and "array" in dt["sub"]:
+                norm_lit(out, "norm_ids", dt["sub"]["array"], dt["sub"]["norm0"], dt["sub"]["norm1"], "node")
     return out
+
+
+def norm_lit(out, kind, a, o0, o1, loc):
+    """The model normalises the array exactly as the implementation presented it."""
+    if a and "rows" in a and len(a["shape"]) == 2 and a["rows"] and o0 is not None and o1 is not None:
+        out.append((kind, f"({g_arr(a['rows'])}, {g_obs(o0)}, {g_obs(o1)})", loc))
 
 
 def nontrivial(s):
@@ -590,8 +681,8 @@ def run(chk, model_ok):
     for rc, err in crashed:
         chk.fail("correspondence", "worker-crash", f"C15 worker died rc={rc}: {err}", {"correspondence": "drive/c15.py"})
     counters, fam_count = {}, {}
-    lits = {"cells": [], "point": [], "conn": []}
-    meta = {"cells": [], "point": [], "conn": []}
+    lits = {"cells": [], "point": [], "conn": [], "norm_ids": [], "norm_cells": []}
+    meta = {"cells": [], "point": [], "conn": [], "norm_ids": [], "norm_cells": []}
     explained = {}
     mal_outcomes = {}
     for s, r in zip(cases, rows):
@@ -614,7 +705,8 @@ def run(chk, model_ok):
             meta[kind].append((s, r, loc))
     ncorr = 0
     if model_ok:
-        for kind, fn in (("cells", "check_cells"), ("point", "check_point"), ("conn", "check_conn")):
+        for kind, fn in (("cells", "check_cells"), ("point", "check_point"), ("conn", "check_conn"),
+                         ("norm_ids", "check_norm_ids"), ("norm_cells", "check_norm_cells")):
             if not lits[kind]:
                 continue
             bad = lib.coq_bad_indices("C15", REQ, fn, lits[kind], chunk=120)
@@ -640,6 +732,7 @@ def run(chk, model_ok):
         "face_face": sum(1 for s in cases if s.get("face_face") is not None),
         "face_edge_or_edge_face": sum(1 for s in cases if s.get("face_edge") is not None or s.get("edge_face") is not None),
         "cell_coordinates": sum(1 for s in cases if s.get("face_coords") or s.get("edge_coords")),
+        "subspaced_then_normalised": sum(len(s.get("sub") or {}) for s in cases),
     }
     chk.coverage.update({
         "evaluations": len(cases),
